@@ -128,12 +128,23 @@ package jsonrpc2
 // Function-level contracts around the monitor
 // ---------------------------------------------------------------------------------------------
 
-// JSON encoding only allocates (library code): nothing that existed before is written. Assumed.
-//@ func marshalToRaw
+// jsonMarshal wraps the library encoder (encoding/json with HTML escaping off): encoding only reads its argument and
+// allocates - nothing that existed before is written. Assumed (this is the library's frame).
+//@ func jsonMarshal
 //@   trusted
-// internalErrorf reports to the user's callback (or panics): assumed not to touch connection or request objects.
-//@ func (*Connection).internalErrorf
-//@   trusted
+// marshalToRaw (verified, no longer trusted): nil stays nil without an error; anything else goes through the encoder
+// once, whose output (or error) is handed back; nothing of the module's own data is written.
+//@ func marshalToRaw [C01, C02, C19]
+//@   track jsonMarshal as enc
+//@   ensures @nil-stays-nil obj == nil ==> len(result.0) == 0 && result.1 == nil && calls(enc) == 0
+//@   ensures @anything-else-is-encoded-once obj != nil ==> calls(enc) == 1 && callArg(enc, 1, 0) == obj && result.1 == callResult(enc, 1, 1)
+//@   ensures @an-encoding-failure-yields-no-bytes result.1 != nil ==> len(result.0) == 0
+// internalErrorf reports to the user's callback (or panics when there is none) and hands back an error that is never
+// nil (verified); the callback is application code: it cannot reach the connection's unexported state.
+//@ func (*Connection).internalErrorf [C01, C02]
+//@   requires c != nil
+//@   callee c.onInternalError: modifies extern
+//@   modifies extern
 //@   ensures result != nil
 
 // retire completes a call exactly once: it panics when the call is already complete, so every caller must know the
